@@ -26,6 +26,8 @@ BATCH_HARNESSES = [
           {"maxtx": 2, "maxout": 1, "tickerset": 1, "outpool": 4}),
     batch("batch-nocheck", "VerifBatchNoCheck", {"maxtx": 1, "maxout": 1, "tickerset": 1},
           {"maxtx": 2, "exactntx": 1, "maxout": 1, "tickerset": 0, "outpool": 2, "fixedrows": 1}),
+    batch("batch-credit-between-spends", "VerifBatch", {"maxtx": 3, "exactntx": 1, "maxout": 1, "tickerset": 0, "outpool": 2, "fixedrows": 1, "shape": 3},
+          {"maxtx": 3, "exactntx": 1, "maxout": 1, "tickerset": 1, "outpool": 2, "fixedrows": 1, "shape": 3}, must=("executed", "rejected")),
     batch("batch-3tx", "VerifBatch", thorough={"maxtx": 3, "exactntx": 1, "maxout": 1, "tickerset": 0, "outpool": 2, "fixedrows": 1},
           thorough_only=True),
 ]
@@ -37,6 +39,20 @@ def txblock(id, quick, thorough):
 TXBLOCK_HARNESSES = [
     txblock("txblock-1", {"maxentries": 1, "kindset": 0}, {"maxentries": 1, "kindset": 0}),
     txblock("txblock-2", {"maxentries": 2, "kindset": 1}, {"maxentries": 2, "kindset": 0}),
+]
+def holding(id, quick, thorough):
+    return {"id": id, "func": "VerifHolding", "pkg": NODE, "pkgname": "node", "load": ["./node"],
+            "params": {"quick": quick, "thorough": thorough}, "must_cover": ["applied", "some-executed"], "max_witness_replays": 6}
+
+
+HOLDING_HARNESSES = [
+    holding("holding-1", {"maxheld": 1}, {"maxheld": 1}),
+    holding("holding-2", {"maxheld": 2, "fixrates": 1}, {"maxheld": 2}),
+]
+HOLDING_BOUNDS = "holding pass (SyncBank + ApplyTransactionBatchesInHolding + recordPegnetRequests) at one executing height per era (bank-limited per arrival height / V4 pooled bank / 2.0 / PIP-10), 1-2 blocks without rates before it, 1 held conversion (pUSD->pXBT or pUSD->PEG; amounts, balances, rates of both blocks symbolic) or 2 held conversions at rates 1:1, arrival heights inside and just outside the window"
+HOLDING_ASSUMPTIONS = [
+    "held batches are single conversions put into holding by the real ApplyTransactionBlock in earlier committed blocks; multi-transaction batches with a PEG request in the bank era (known legacy findings D8/D15, DESIGN §8) are outside this harness",
+    "averaging period reduced to 3 (package variable) so that the averages are those of the last rated block; rates of the executing block are the table rows InsertRates would have written",
 ]
 TXBLOCK_ASSUMPTIONS = [
     "ideal-signature model of fat103.Validate: a signature verifies only for the key holder's own (salt, chain id, content); ext-id count, +-12 h salt window against the block time and the RCD-type mask are modelled exactly as the library implements them (native replays use real ed25519/secp256k1 signatures)",
@@ -62,14 +78,14 @@ PROPS = {
     },
     "C03": {
         "asserts": ["C03.", "uncaught-panic"],
-        "harnesses": BATCH_HARNESSES,
+        "harnesses": BATCH_HARNESSES + HOLDING_HARNESSES,
         "bounds": {"quick": "applyTransactionBatch+recordBatch: 1 tx (<=2 outputs, assets PEG/pUSD/pFCT, outputs to self/other/burn/zero address, all row-presence patterns) and exactly 2 tx (assets PEG/pUSD, outputs to self/other); height, amounts, balances (<2^62), rates, averages symbolic; CHECK constraints on and off",
                    "thorough": "1 tx over 5 assets; 1..2 tx over 3 assets with all output addresses and row patterns; exactly 3 tx over PEG/pUSD"},
         "assumptions": BATCH_ASSUMPTIONS,
     },
     "C04": {
         "asserts": ["C04.", "uncaught-panic"],
-        "harnesses": BATCH_HARNESSES,
+        "harnesses": BATCH_HARNESSES + HOLDING_HARNESSES,
         "bounds": {"quick": "as C03 (same harness, supply/recipient assertions)", "thorough": "as C03"},
         "assumptions": BATCH_ASSUMPTIONS,
     },
@@ -90,7 +106,8 @@ PROPS = {
         "asserts": ["C01.", "uncaught-panic"],
         "harnesses": [
             {"id": "supply-order", "func": "VerifSupply", "pkg": CONV, "pkgname": "conversions", "load": ["./node/conversions"],
-             "params": {"quick": {"maxreq": 2, "order": 1}, "thorough": {"maxreq": 3, "order": 1}}, "must_cover": ["fits", "limited"]},
+             "params": {"quick": {"maxreq": 2, "order": 1}, "thorough": {"maxreq": 3, "order": 1}}, "must_cover": ["fits", "limited"],
+             "replay_mode": "order", "native_repeat": 24},
             {"id": "staking-order", "func": "VerifSnapshot", "pkg": NODE, "pkgname": "node", "load": ["./node"],
              "params": {"quick": {"both": 2, "extras": 0, "assets": 1, "order": 1, "positive": 1, "permute_budget": 1, "fixrates": 1},
                         "thorough": {"both": 3, "extras": 0, "assets": 1, "order": 1, "positive": 1, "permute_budget": 1, "fixrates": 1}},
@@ -212,7 +229,7 @@ PROPS = {
             {"id": "admit", "func": "VerifAdmit", "pkg": NODE, "pkgname": "node", "load": ["./node"],
              "params": {"quick": {"matrix": 0}, "thorough": {"matrix": 1}},
              "must_cover": ["must-reject", "must-drop", "must-execute"], "max_witness_replays": 9},
-        ],
+        ] + HOLDING_HARNESSES[:1],
         "wall": {"quick": 300, "thorough": 3000},
         "bounds": {"quick": "one conversion; (3 sources x all 62 destinations) + (all 62 sources x 3 destinations); height uint32 from the tx activation on, amount/balance < 2^62, rates/averages uint64 incl. 0",
                    "thorough": "full 62x62 asset matrix"},
@@ -224,26 +241,26 @@ PROPS = {
         "harnesses": [
             {"id": "supply-3", "func": "VerifSupply", "pkg": CONV, "pkgname": "conversions", "load": ["./node/conversions"],
              "params": {"quick": {"maxreq": 3, "order": 0}, "thorough": {"maxreq": 4, "order": 0}}, "must_cover": ["fits", "limited"]},
-        ],
+        ] + HOLDING_HARNESSES,
         "bounds": {"quick": "ConversionSupplySet: 1..3 requests, bank and requests full uint64", "thorough": "1..4 requests"},
         "assumptions": ["math/big as mathematical integers; txids concrete and well-formed"],
     },
     "C05": {
         "asserts": ["C05.", "uncaught-panic"],
-        "harnesses": TXBLOCK_HARNESSES,
+        "harnesses": TXBLOCK_HARNESSES + HOLDING_HARNESSES,
         "bounds": {"quick": "transaction-chain block with 1 entry of 12 kinds (valid transfer/conversion, replay of an executed/pending/rejected entry, unparsable, wrong signer, no signature, expired salt, corrupted signature, content altered after signing, signed for another chain, RCD-e key, extra ext-id) and 2-entry blocks (replay/transfer/conversion); height, block time, salt offset, amounts, balances symbolic",
                    "thorough": "2-entry blocks over all kinds"},
         "assumptions": TXBLOCK_ASSUMPTIONS,
     },
     "C06": {
         "asserts": ["C06.", "uncaught-panic"],
-        "harnesses": TXBLOCK_HARNESSES,
+        "harnesses": TXBLOCK_HARNESSES + HOLDING_HARNESSES,
         "bounds": {"quick": "as C05 (same harness; duplicates within a block, across adjacent blocks, of executed/pending/rejected entries)", "thorough": "as C05"},
         "assumptions": TXBLOCK_ASSUMPTIONS,
     },
     "C08": {
         "asserts": ["C08.", "uncaught-panic"],
-        "harnesses": TXBLOCK_HARNESSES + [
+        "harnesses": TXBLOCK_HARNESSES + HOLDING_HARNESSES + [
             {"id": "snapshot-live", "func": "VerifSnapshot", "pkg": NODE, "pkgname": "node", "load": ["./node"],
              "params": {"quick": {"both": 2, "extras": 1, "assets": 1}, "thorough": {"both": 2, "extras": 1, "assets": 2}},
              "must_cover": ["paid"], "max_witness_replays": 2},
@@ -256,7 +273,7 @@ PROPS = {
         "harnesses": [
             {"func": "VerifConvert", "pkg": CONV, "pkgname": "conversions", "load": ["./node/conversions"],
              "must_cover": ["specified-error", "overflow-error", "converted-pip10", "converted-legacy"]},
-        ],
+        ] + HOLDING_HARNESSES + TXBLOCK_HARNESSES[:1],
         "bounds": {"quick": "Convert: amount int64, four rates uint64, height uint32 - full ranges, no loop"},
         "assumptions": ["math/big modelled as mathematical integers (Div/Quo by q,r form)"],
     },
